@@ -581,7 +581,7 @@ def execute(case: dict) -> dict:  # noqa: C901, PLR0912, PLR0915
                 handed.setdefault(recv, []).append((when, {lan_i, wan_i}))
         pair_keys = set()
         judged = 0
-        seen_pairs = set()
+        pairs: dict = {}          # (requester, introduced) -> [(response pkt, lan_i, wan_i, delivery time)] judged events
         for pkt, lan_i, wan_i in intros:
             req = sent.get(pkt.cause)
             if req is None or req.src_node not in t.nodes:
@@ -590,6 +590,12 @@ def execute(case: dict) -> dict:  # noqa: C901, PLR0912, PLR0915
             r_name = req.src_node
             r_seen = tuple(req.wire_src)
             cands = preqs.get(pkt.cause, [])
+            # who is being introduced, judging by the addresses handed out (fallbacks for broken hand-outs)
+            want = None
+            for cand in (t.resolve_public(net, wan_i), t.resolve_any(net, lan_i), t.resolve_any(net, wan_i)):
+                if cand is not None and cand not in (r_name, "B"):
+                    want = cand
+                    break
             # ---- (1) puncture request for this introduction
             i_name = None
             if not cands:
@@ -600,60 +606,67 @@ def execute(case: dict) -> dict:  # noqa: C901, PLR0912, PLR0915
             else:
                 world.probe("puncture_request_observed")
                 targets = [(p, pl, t.resolve_public(net, tuple(p.dst))) for p, pl in cands]
-                hit = [x for x in targets if x[2] is not None and x[2] != r_name]
-                want = t.resolve_any(net, wan_i) or t.resolve_any(net, lan_i)
-                if want is not None:
-                    hit2 = [x for x in hit if x[2] == want]
-                else:
-                    hit2 = hit
-                if not hit2:
+                hit = [x for x in targets if x[2] is not None and x[2] not in (r_name, "B")
+                       and (want is None or x[2] == want)]
+                if not hit:
                     c.violate("puncture_request", "puncture_request_not_sent_to_introduced_peer",
                               f"B introduced lan={lan_i} wan={wan_i} (node {want}) to {r_name} but its puncture-request "
                               f"went to {[tuple(p.dst) for p, _ in cands]} which does not reach that peer. "
                               f"trace: {trace({'B', r_name, want})}")
                 else:
-                    p, pl, i_name = hit2[0]
+                    p, pl, i_name = hit[0]
                     if tuple(pl.wan_walker_address) != r_seen:
                         c.violate("puncture_request", "puncture_request_not_towards_requester",
                                   f"B's puncture-request to {i_name} names wan_walker={tuple(pl.wan_walker_address)} "
                                   f"but the requester {r_name} was seen at {r_seen}")
             if i_name is None:
-                i_name = t.resolve_any(net, wan_i) or t.resolve_any(net, lan_i)
-            if i_name is None or i_name == r_name or i_name == "B":
-                # the handed out addresses belong to nobody: judged as unreachable below if we can name the peer
-                i_name = i_name if i_name not in (r_name, "B") else None
+                i_name = want
             if i_name is None:
-                # who did B mean? the peer the puncture-request went to, else unknown
                 c.violate("reachability", "introduced_address_belongs_to_nobody",
-                          f"B introduced lan={lan_i} wan={wan_i} to {r_name}; no node is reachable under either")
+                          f"B introduced lan={lan_i} wan={wan_i} to {r_name}; no node other than the requester is "
+                          f"reachable under either. trace: {trace({'B', r_name})}")
                 continue
-            # ---- (2) mutual reachability
-            rnd = round_of[pkt.id]
-            if retry and (lost_in_round.get(rnd) or fate_of[pkt.id] != "ok"):
+            if fate_of[pkt.id] != "ok" or delivered.get(pkt.id, (None,))[0] != r_name or (
+                    retry and lost_in_round.get(round_of[pkt.id])):
                 world.probe("introduction_in_lossy_round_not_judged")
                 continue
-            if (r_name, i_name) in seen_pairs:
-                continue
-            seen_pairs.add((r_name, i_name))
-            judged += 1
-            world.probe("introductions_judged")
+            pairs.setdefault((r_name, i_name), []).append((pkt, lan_i, wan_i, delivered[pkt.id][1]))
+
+        def tried(r: str, addr: tuple, lo: float, hi: float) -> bool:
+            return any(p.src_node == r and len(p.data) > 22 and p.data[22] in REQ_IDS and tuple(p.dst) == addr
+                       and lo <= p.t < hi for p in sent.values())
+
+        for (r_name, i_name), events in pairs.items():
+            # ---- (2) mutual reachability
             rn, inn = t.nodes[r_name], t.nodes[i_name]
             place = t.placement(r_name, i_name)
             combo = f"{t.kind[r_name]}/{t.kind[i_name]}/{place}"
-            pair_keys.add(combo)
-            world.probe("pair:" + combo)
             r_has_i = inn.my_peer in rn.ov.get_peers()
             i_has_r = rn.my_peer in inn.ov.get_peers()
             world.trace.event("pair", r_name, i_name, (combo, r_has_i, i_has_r))
+            pkt, lan_i, wan_i, _ = events[0]
+            if not (r_has_i and i_has_r):
+                # Premise of the statement: the requester makes a contact attempt after the introduction.  The real
+                # walker refuses to when it already tried that very address before B introduced it (learnt from a
+                # third peer's response) and that attempt is still in / just left its timeout list.
+                stale = all(any(x != ZERO and tried(r_name, x, 0.0, when) and not tried(r_name, x, when, 1e18)
+                                for x in (lan, wan)) for _, lan, wan, when in events)
+                if stale:
+                    world.probe("not_judged_address_tried_before_introduction_only")
+                    continue
+            judged += 1
+            world.probe("introductions_judged")
+            pair_keys.add(combo)
+            world.probe("pair:" + combo)
             if not (r_has_i and i_has_r):
                 nat_i, nat_r = t.nat(i_name), t.nat(r_name)
                 c.violate("reachability", f"introduced_peer_not_reachable:{combo}",
                           f"[{case['style']}] B introduced {i_name} (lan={lan_i} wan={wan_i}; real lan={t.lan(i_name)} "
                           f"wan={t.wan(i_name)}) to {r_name} (lan={t.lan(r_name)} wan={t.wan(r_name)}); after "
-                          f"{r_name}'s attempts {sorted(attempted.get(r_name, ()))}: {i_name} in {r_name}.get_peers()="
-                          f"{r_has_i}, {r_name} in {i_name}.get_peers()={i_has_r}. NAT drops at {i_name}: "
-                          f"{nat_i.drops[-3:] if nat_i else '-'} at {r_name}: {nat_r.drops[-3:] if nat_r else '-'}. "
-                          f"trace: {trace({r_name, i_name})}")
+                          f"{r_name}'s attempts {[tuple(x) for x in sorted(attempted.get(r_name, ()))]}: {i_name} in "
+                          f"{r_name}.get_peers()={r_has_i}, {r_name} in {i_name}.get_peers()={i_has_r}. NAT drops at "
+                          f"{i_name}: {nat_i.drops[-3:] if nat_i else '-'} at {r_name}: "
+                          f"{nat_r.drops[-3:] if nat_r else '-'}. trace: {trace({r_name, i_name})}")
                 continue
             # ---- (3) same NAT: over the LAN
             if place == "same":
@@ -675,6 +688,7 @@ def execute(case: dict) -> dict:  # noqa: C901, PLR0912, PLR0915
                         world.probe("same_nat_pair_connected_by_foreign_introduction")
             elif place == "different" and t.kind[i_name] in ("addr", "port") and punched(t, r_name, i_name):
                 world.probe("hole_punch_needed_and_worked")
+        seen_pairs = set(pairs)
         # evidence: punctures that died at a restricted NAT
         for pid, pkt in sent.items():
             if len(pkt.data) > 22 and pkt.data[22] in PUNCT_IDS and fate_of[pid] == "ok" and pid not in delivered:
